@@ -325,6 +325,8 @@ class Builder:
                 return ("c", ints[0])
             if cq == NS + "parenthesesNode::parenthesesNode" and len(c) == 2:
                 return self.ev(c[1], depth + 1)
+            if cq == NS + "parenCastNode::parenCastNode" and len(c) == 3:
+                return self.ev(c[2], depth + 1)      # a conversion of the value: the same term (its presence is checked by the rule that needs it)
             if len(c) == 1:
                 return self.ev(c[0], depth + 1)
             raise TermError("constructor %s not modelled" % cq)
